@@ -218,7 +218,20 @@ def harness_build(timeout=1500):
 
 def harness(prop, args, timeout=1800):
     cmd = [HARNESS_BIN, prop] + ["%s=%s" % kv for kv in args.items()]
+    pf = os.path.join(str(args.get("out", "")), "harness_panic.txt")
+    if os.path.exists(pf):
+        os.remove(pf)
     return sh(cmd, timeout=timeout)
+
+
+def harness_panic(run):
+    """An uncaught panic of the real code inside the harness: (announced case, panic message) or None."""
+    pf = os.path.join(run.dir, "harness_panic.txt")
+    if not os.path.exists(pf):
+        return None
+    txt = open(pf).read()
+    m = re.match(r"case=(.*?) :: (.*)", txt, re.S)
+    return (m.group(1).strip(), m.group(2).strip()[:600]) if m else ("", txt[:600])
 
 
 # ------------------------------------------------------------------------------------------------ in-Coq evaluation
@@ -334,6 +347,17 @@ class Run:
         os.makedirs(os.path.join(ROOT, "evidence"), exist_ok=True)
         lines = []
         nviol = 0
+        # a violation shown with a concrete failing input subsumes the reports that only name a broken theorem / tie
+        # (their text is kept inside the replay file of the first concrete one)
+        concrete = [v for v in self.violations if v[2]]
+        if concrete:
+            broken = [v[0] for v in self.violations if not v[2]]
+            if broken:
+                what, replay, found = concrete[0]
+                replay = dict(replay)
+                replay["also_broken"] = broken
+                concrete[0] = (what, replay, found)
+            self.violations = concrete
         for n, (what, replay, found) in enumerate(self.violations):
             key = replay.get("finding_key")
             match = [k for k in kf.get("known", []) if k.get("property") == self.id and key and k.get("key") == key]
